@@ -77,6 +77,7 @@ fn strategy(hostile_docs: bool) -> impl Strategy<Value = Case> {
 		if tweak % 5 == 0 {
 			add_zero_twins(&mut m, tweak);
 		}
+		crate::mapmodel::gen::confusable_namespaces(&mut m, (tweak >> 8) as u8);
 		// one case in four carries a comment on the set itself
 		let set_doc = if doc % 4 == 0 { Some(SET_DOCS[crate::engine::idx(doc, SET_DOCS.len())].to_string()) } else { None };
 		Case { m, order1, order2, order3, set_doc }
